@@ -411,15 +411,6 @@ where
         index: usize,
         entity_allocator: &mut entity::Allocator<R>,
     ) {
-        // SAFETY: `self.components` contains the same number of bits as are set in
-        // `self.identifier`. Also, each entry is `self.components` is guaranteed to contain the
-        // raw parts for a valid `Vec<C>` for each `C` identified by `self.identifier`. Finally,
-        // `self.identifier` is generic over the same registry `R` as this method is being called
-        // on.
-        unsafe {
-            R::remove_component_row(index, &self.components, self.length, self.identifier.iter());
-        }
-
         let mut entity_identifiers = ManuallyDrop::new(
             // SAFETY: `self.entity_identifiers` is guaranteed to contain the raw parts for a valid
             // `Vec` of size `self.length`.
@@ -449,6 +440,22 @@ where
         entity_identifiers.swap_remove(index);
 
         self.length -= 1;
+
+        // The components are removed last, after the row has been accounted for, since dropping
+        // them runs user code which may panic.
+        // SAFETY: `self.components` contains the same number of bits as are set in
+        // `self.identifier`. Also, each entry is `self.components` is guaranteed to contain the
+        // raw parts for a valid `Vec<C>` of length `self.length + 1` (the length before this
+        // removal) for each `C` identified by `self.identifier`. Finally, `self.identifier` is
+        // generic over the same registry `R` as this method is being called on.
+        unsafe {
+            R::remove_component_row(
+                index,
+                &self.components,
+                self.length + 1,
+                self.identifier.iter(),
+            );
+        }
     }
 
     /// # Safety
@@ -641,15 +648,6 @@ where
     /// # Safety
     /// `entity_allocator` must contain entries for the entities stored in the archetype.
     pub(crate) unsafe fn clear(&mut self, entity_allocator: &mut entity::Allocator<R>) {
-        // Clear each column.
-        // SAFETY: `self.components` has the same number of values as there are set bits in
-        // `self.identifier`. Also, each element in `self.components` defines a `Vec<C>` of size
-        // `self.length` for each `C` identified by `self.identifier`.
-        //
-        // The `R` over which `self.identifier` is generic is the same `R` on which this function
-        // is being called.
-        unsafe { R::clear_components(&mut self.components, self.length, self.identifier.iter()) };
-
         // Free each entity.
         let mut entity_identifiers = ManuallyDrop::new(
             // SAFETY: `self.entity_identifiers` is guaranteed to contain the raw parts for a valid
@@ -669,7 +667,18 @@ where
         }
         entity_identifiers.clear();
 
+        let length = self.length;
         self.length = 0;
+
+        // Clear each column. This is done last, after the rows have been accounted for, since
+        // dropping the components runs user code which may panic.
+        // SAFETY: `self.components` has the same number of values as there are set bits in
+        // `self.identifier`. Also, each element in `self.components` defines a `Vec<C>` of size
+        // `length` for each `C` identified by `self.identifier`.
+        //
+        // The `R` over which `self.identifier` is generic is the same `R` on which this function
+        // is being called.
+        unsafe { R::clear_components(&mut self.components, length, self.identifier.iter()) };
     }
 
     /// Clear the archetype as a detached entity.
@@ -685,11 +694,13 @@ where
         //
         // The `R` over which `self.identifier` is generic is the same `R` on which this function
         // is being called.
-        unsafe { R::clear_components(&mut self.components, self.length, self.identifier.iter()) };
-
+        //
         // Note that we don't need to touch the entity identifiers in this case. Setting the length
-        // to `0` is sufficient because the entity identifiers are `Copy`.
+        // to `0` is sufficient because the entity identifiers are `Copy`. The length is reset
+        // first, since dropping the components runs user code which may panic.
+        let length = self.length;
         self.length = 0;
+        unsafe { R::clear_components(&mut self.components, length, self.identifier.iter()) };
     }
 
     /// Decrease the allocated capacity for the component columns and entity identifier column.
